@@ -57,16 +57,22 @@ Proof.
   - destruct ((u_rcode m =? RC_REFUSED) || (u_rcode m =? RC_NOTZONE)); discriminate.
 Qed.
 
-(* the Answer handed to the client is made of Answer-section records only: Authority and
-   Additional of a positive answer never get there *)
-Lemma relayed_from_answer_section auth q m r : In r (relayed_answer auth q m) -> In r (u_answer m).
+(* the Answer handed to the client is made of Answer-section records only (Authority and
+   Additional of a positive answer never get there) that are owned inside the answering zone *)
+Lemma relayed_sound auth q m r :
+  In r (relayed_answer auth q m) -> In r (u_answer m) /\ is_sub auth (rr_owner r) = true.
 Proof.
   unfold relayed_answer. destruct (dispose auth q m) eqn:D; try (intros []).
   apply dispose_answer in D. destruct D as [-> _].
-  destruct (chase_applies q _); [|auto]. destruct (scan_answer q (u_answer m) None); auto. intros [].
+  assert (F : In r (in_zone_answer auth (u_answer m)) -> In r (u_answer m) /\ is_sub auth (rr_owner r) = true).
+  { unfold in_zone_answer. rewrite filter_In. tauto. }
+  destruct (chase_applies q _); [|exact F]. destruct (scan_answer q _ None); auto. intros [].
 Qed.
 
-(* ------------------------------------------------ containment: the parts that hold *)
+Lemma relayed_from_answer_section auth q m r : In r (relayed_answer auth q m) -> In r (u_answer m).
+Proof. intros H. exact (proj1 (relayed_sound _ _ _ _ H)). Qed.
+
+(* ------------------------------------------------ containment *)
 Lemma out_of_zone_not_eq auth a b :
   is_sub auth a = true -> is_sub auth b = false -> canon b = canon a -> False.
 Proof.
@@ -82,20 +88,15 @@ Section Containment.
   Variable r : rr.
   Hypothesis r_outside : is_sub auth (rr_owner r) = false.
 
-  (* (1) the answer cache: the entry is keyed by the question; a record owned outside the zone is
-     never kept under its own name, and is kept at all only when it is DNAME material *)
-  Lemma contained_cache :
-    In r (cached_for q (relayed_answer auth q m)) ->
-    name_eqb (q_name q) (rr_owner r) = false /\ dname_material r /\ In r (u_answer m).
-  Proof.
-    unfold cached_for. intros H. apply cacheable_sound in H. destruct H as [Hin [Ho|Hd]].
-    - exfalso. exact (out_of_zone_not_eq _ _ _ q_in_zone r_outside Ho).
-    - repeat split; [|exact Hd | exact (relayed_from_answer_section _ _ _ _ Hin)].
-      destruct (name_eqb (q_name q) (rr_owner r)) eqn:E; [|reflexivity].
-      exfalso. apply name_eqb_spec in E. symmetry in E. exact (out_of_zone_not_eq _ _ _ q_in_zone r_outside E).
-  Qed.
+  (* (a) never relayed in the client's Answer *)
+  Lemma contained_relay : ~ In r (relayed_answer auth q m).
+  Proof. intros H. apply relayed_sound in H. destruct H as [_ H]. congruence. Qed.
 
-  (* (2) glue: with the bookkeeping level at least the depth of the zone, nothing is learnt for its owner *)
+  (* (b) never cached: not under its own name, not under the question's key *)
+  Lemma contained_cache : ~ In r (cached_for q (relayed_answer auth q m)).
+  Proof. unfold cached_for. intros H. apply cacheable_sound in H. exact (contained_relay (proj1 H)). Qed.
+
+  (* (c) glue: with the bookkeeping level at least the depth of the zone, nothing is learnt for its owner *)
   Lemma contained_glue ipv6 local level o g :
     (length auth <= level)%nat ->
     referral_glue ipv6 local level auth q m = Some (o, g) ->
@@ -116,7 +117,7 @@ Section Containment.
     exact (out_of_zone_not_eq _ _ _ Hs r_outside E).
   Qed.
 
-  (* (3) delegations: an accepted referral is one NS set owned strictly inside the zone; a record
+  (* (d) delegations: an accepted referral is one NS set owned strictly inside the zone; a record
      owned outside is not part of it (a mixed-owner section is rejected as a whole) *)
   Lemma contained_delegation i :
     dispose auth q m = DReferral i ->
@@ -130,20 +131,39 @@ Section Containment.
   Qed.
 End Containment.
 
-(* ------------------------------------------------ containment: the part that fails *)
+(* all four clauses, for the zone and level any descent arrives at *)
+Lemma containment_all start steps q m r ipv6 local :
+  let auth := fst (descent start steps) in
+  let level := snd (descent start steps) in
+  is_sub auth (q_name q) = true ->
+  is_sub auth (rr_owner r) = false ->
+  ~ In r (relayed_answer auth q m) /\
+  ~ In r (cached_for q (relayed_answer auth q m)) /\
+  (forall o g, referral_glue ipv6 local level auth q m = Some (o, g) ->
+     ~ In (canon (rr_owner r)) (gr_found4 g ++ gr_found6 g ++ map fst (gr_addrs4 g) ++ map fst (gr_addrs6 g))) /\
+  (forall i, dispose auth q m = DReferral i ->
+     exists owner, di_owner i = Some owner /\ is_sub auth owner = true /\ name_eqb owner auth = false /\
+       is_sub owner (q_name q) = true /\ (In r (u_ns m) -> ~ is_ns r)).
+Proof.
+  intros auth level Hq Hr. repeat split.
+  - apply contained_relay; assumption.
+  - apply contained_cache; assumption.
+  - intros o g Hg. exact (contained_glue auth q m Hq r Hr ipv6 local level o g (descent_level_ok start steps) Hg).
+  - intros i D. eapply contained_delegation; eauto.
+Qed.
+
+(* ------------------------------------------------ the former counterexample *)
 (* evil.l1.'s server answers "x.evil.l1. A" with an alias to www.victim.l2. followed by an address
-   for that name: the model (like the code) hands both records to the client *)
+   for that name.  Before commit 767eb6f both records reached the client; now the tail is dropped,
+   the alias is kept and its target is re-resolved (the model is not exact there: a chase runs). *)
 Definition w_auth : name := [[108;49]; [101;118;105;108]].
 Definition w_q : question := mk_q (w_auth ++ [[120]]) T_A 1.
 Definition w_victim : name := [[108;50]; [118;105;99;116;105;109]; [119;119;119]].
+Definition w_alias : rr := mk_rr (q_name w_q) T_CNAME 1 300 (RdName w_victim).
 Definition w_tail : rr := mk_rr w_victim T_A 1 300 (RdA [6;6;6;6]).
-Definition w_msg : umsg := mk_umsg RC_OK [mk_rr (q_name w_q) T_CNAME 1 300 (RdName w_victim); w_tail] [] [].
+Definition w_msg : umsg := mk_umsg RC_OK [w_alias; w_tail] [] [].
 
-Lemma relay_counterexample :
+Lemma former_relay_witness :
   is_sub w_auth (q_name w_q) = true /\ In w_tail (u_answer w_msg) /\ is_sub w_auth (rr_owner w_tail) = false /\
-  In w_tail (relayed_answer w_auth w_q w_msg) /\ relay_exact w_auth w_q w_msg = true.
+  relayed_answer w_auth w_q w_msg = [w_alias] /\ scan_answer w_q [w_alias] None = ScanChase w_victim.
 Proof. repeat split; vm_compute; auto. Qed.
-
-(* ... and none of it is cached: the entry for the question keeps the alias only *)
-Lemma relay_counterexample_not_cached : ~ In w_tail (cached_for w_q (relayed_answer w_auth w_q w_msg)).
-Proof. vm_compute. intros [H|[]]. discriminate. Qed.
